@@ -68,7 +68,7 @@ def make_probes(rng, picks, malformed=None, avoid=None):
             base = rng.choice([0xe5007000, 0x60000000 + 4 * rng.getrandbits(16)])
             while avoid and base in avoid.get(xy, ()):
                 base = 0x60000000 + 4 * rng.getrandbits(16)
-            used[xy] = dict(vcpu_base=base, iobuf_size=rng.choice([16, 40, 64, 100, 256]),
+            used[xy] = dict(vcpu_base=base, iobuf_size=rng.choice([16, 18, 33, 40, 67, 100, 255, 256] + ([0x1023] if rng.random() < 0.04 else [])),
                             next_addr=[0x60100000 + 4 * rng.getrandbits(10)],
                             router=[rng.choice([0, 1, 0xffffffff, rng.getrandbits(32)]) for _ in range(16)])
         ctx = used[xy]
@@ -78,7 +78,7 @@ def make_probes(rng, picks, malformed=None, avoid=None):
         for _b in range(rng.choice([0, 1, 1, 2, 3, 5])):
             addr = ctx["next_addr"][0]
             ctx["next_addr"][0] += size + 16 + 4 * rng.randint(0, 8)
-            length = rng.choice([0, 1, size, size, max(0, size - 1), rng.randint(0, size)])
+            length = rng.choice([0, 1, size, size, size, max(0, size - 1), rng.randint(0, size)])     # often filled to capacity
             if malformed == "iobuf_overlong" and rng.random() < 0.6:
                 length = size + rng.choice([1, 5, 1000])
             if text_only:
@@ -715,7 +715,27 @@ def opt(x, f):
     return "None" if x is None else "(Some %s)" % f(x)
 
 
-def case_exprs(c, out, sim, tag="k"):
+VCPU_PACKS = dict((n, ("16s", 16) if n == "app_name" else ("I", 4) if n == "__PAD" else
+                   ({4: "I", 2: "H", 1: "B"}[sz], 1)) for n, sz, _ in VCPU_LAYOUT_FIELDS)
+VCPU_ORDER = ["r%d" % i for i in range(8)] + ["psr", "sp", "lr", "rt_code", "phys_cpu", "cpu_state", "app_id", "mbox_ap_msg",
+                                             "mbox_mp_msg", "mbox_ap_cmd", "mbox_mp_cmd", "sw_count", "sw_file", "sw_line",
+                                             "time", "app_name", "iobuf", "sw_ver", "__PAD", "user0", "user1", "user2", "user3"]
+
+
+def layout_lit(lay):
+    """The controller's `structs` as the model's layout parameter."""
+    if lay is None:
+        return "packaged_layout"
+    f = lambda pack, off: '("%s"%%string, %s, 1)' % (pack, zlit(off))
+    fields = vlist('("%s"%%string, ("%s"%%string, %s, %s))' % (n, VCPU_PACKS[n][0], zlit(lay["vcpu"][n]), zlit(VCPU_PACKS[n][1]))
+                   for n in VCPU_ORDER)
+    return "(mkLayout %s %s %s %s %s %s %s)" % (zlit(lay["sv_base"]), f("H", lay["sv"]["p2p_dims"]), f("I", lay["sv"]["vcpu_base"]),
+                                               f("I", lay["sv"]["iobuf_size"]), f("B", lay["sv"]["num_cpus"]),
+                                               zlit(lay["vcpu_size"]), fields)
+
+
+def case_exprs(c, out, sim, tag="k", known=None):
+    # known: the SCP buffer size the controller has learnt in an earlier call of its history (None: fresh)
     """-> (component names, top-level definitions, Coq expression evaluating to the list of booleans).
     The large literals are top-level Definitions (elaborating them under a `let` is far slower)."""
     defs = []
@@ -732,8 +752,10 @@ def case_exprs(c, out, sim, tag="k"):
     b1, b2, b3, bdata = machine.sver_reply(boot, 0)
     defs.append("Definition M_%s : list (Z * list Z) := %s." % (tag, mem))
     defs.append("Definition I_%s : list (chip * reply) := [%s]%%uint63." % (tag, "; ".join(infos)))
-    defs.append("Definition R_%s := controller_system_info (mkReply %s %s %s %s) (mem_reader M_%s) (info_of I_%s)."
-                % (tag, zlit(b1), zlit(b2), zlit(b3), zl(list(bytearray(bdata))), tag, tag))
+    defs.append("Definition L_%s : layout := %s." % (tag, layout_lit(c.get("layout"))))
+    defs.append("Definition R_%s := drop_state (ctl_system_info L_%s %s (mkReply %s %s %s %s) (mem_reader M_%s) (info_of I_%s))."
+                % (tag, tag, "None" if known is None else "(Some %s)" % zlit(known),
+                   zlit(b1), zlit(b2), zlit(b3), zl(list(bytearray(bdata))), tag, tag))
     head = ""
     si = out["sysinfo"]
     if si[0] != "ok":
@@ -763,7 +785,8 @@ def case_exprs(c, out, sim, tag="k"):
         else:
             add("machine", "false")
         if isinstance(out.get("get_machine"), dict):
-            add("get_machine", "hash_lll (flat_machine (build_machine si)) =? %s" % zlit(hlll(flat_machine(out["get_machine"]))))
+            add("get_machine", "match get_machine_L L_%s (mem_reader M_%s) (info_of I_%s) with Ok m => "
+                "hash_lll (flat_machine m) =? %s | _ => false end" % (tag, tag, tag, zlit(hlll(flat_machine(out["get_machine"])))))
         elif "get_machine" in out:
             add("get_machine", "false")
         cons = out["constraints"]
@@ -807,12 +830,12 @@ def case_exprs(c, out, sim, tag="k"):
         if st[0] == "ok":
             flat = [st[1]] + [[v] for v in st[2:16]] + [st[16], [st[17]], [st[18]], st[19], st[20]]
             st = ["ok", flat]
-        cmp("status", "processor_status (mem_reader MC) %s" % zlit(p), st, "llz_eqb", zll)
-        cmp("iobuf", "get_iobuf_bytes %d%%nat (mem_reader MC) %s" % (len(pr["iobuf"]) + 2, zlit(p)),
+        cmp("status", "processor_status_L L_%s (mem_reader MC) %s" % (tag, zlit(p)), st, "llz_eqb", zll)
+        cmp("iobuf", "get_iobuf_bytes_L L_%s %d%%nat (mem_reader MC) %s" % (tag, len(pr["iobuf"]) + 2, zlit(p)),
             o["iobuf_bytes"], "(fun a b => hash_list a =? b)", lambda l: zlit(hl(l)))
         cmp("router", "router_diagnostics (mem_reader MC)", o["router"], "lz_eqb", zl)
         if o.get("num_cores", ["err"])[0] == "ok":
-            cmp("num_cores", "read_sv_int (mem_reader MC) sv_num_cpus", o["num_cores"], "Z.eqb", zlit)
+            cmp("num_cores", "num_working_cores_L L_%s (mem_reader MC)" % tag, o["num_cores"], "Z.eqb", zlit)
         defs.append("Definition %s : list (Z * list Z) := %s." % (mcname, memc))
         exprs.append(vlist(parts).replace("(mem_reader MC)", "(mem_reader %s)" % mcname))
     return all_names, "\n".join(defs), exprs        # each expression is evaluated by its own Eval (joining
@@ -879,6 +902,9 @@ def process_batch(chk, sim, cases, state, built):
                 if 0 < b["length"] <= len(b["payload"]) and b["payload"][b["length"] - 1] == 0:
                     chk.count("iobuf-block-ending-in-nul:%s" % ("last" if bi == len(pr["iobuf"]) - 1 else "first" if bi == 0 else "middle"))
         chk.count("iobuf-blocks:%d" % max([len(p["iobuf"]) for p in c["probes"]] + [0]))
+        for pr in c["probes"]:
+            if pr["iobuf_size"] % 4 and sum(1 for b in pr["iobuf"] if b["length"] == pr["iobuf_size"]) >= 1 and len(pr["iobuf"]) >= 2:
+                chk.count("iobuf-chain-with-full-block-of-odd-size")
         for x, y, cs in c["chips"]:
             chk.count("answer:" + (cs["answer"] if isinstance(cs["answer"], str) else cs["answer"][0]))
         if "stages" in c:
@@ -918,9 +944,15 @@ def process_batch(chk, sim, cases, state, built):
     if chk.model_ok and built and not state["model_error"]:
         try:
             idx = [i for i, u in enumerate(units) if isinstance(u[2], dict)]
-            # the model reads the documented layout: for a machine laid out otherwise it is given the same state in
-            # the documented layout (what is compared are the decoded values)
-            named = [case_exprs(dict(units[i][1], layout=None), units[i][2], sim, "c%d" % i) for i in idx]
+            # the model is given the controller's struct layout, the machine's memory as laid out, and what the
+            # controller has learnt in the earlier calls of its history (the SCP buffer size)
+            known = {}
+            for i in idx:
+                parent, st, so, k = units[i]
+                who = parent.get("ctrl", [0] * (k + 1))[k] if "stages" in parent else 0
+                earlier = [j for j in range(k) if parent.get("ctrl", [0] * k)[j] == who] if "stages" in parent else []
+                known[i] = parent["stages"][earlier[0]]["sver"]["buffer_size"] if earlier else None
+            named = [case_exprs(units[i][1], units[i][2], sim, "c%d" % i, known[i]) for i in idx]
             order = sorted(range(len(named)), key=lambda k: -len(named[k][1]))       # big cases first, spread over shards
             nshard = max(1, min(24, len(named) // 4))
             buckets = [[] for _ in range(nshard)]
